@@ -105,7 +105,12 @@ func c20Session(pass string, capNeg, track bool, scenario int) (*capLogger, []st
 		conn := client.Client(cfg)
 		pre(conn)
 		disc := make(chan struct{}, 1)
-		conn.HandleFunc(client.DISCONNECTED, func(*client.Conn, *client.Line) { select { case disc <- struct{}{}: default: } })
+		conn.HandleFunc(client.DISCONNECTED, func(*client.Conn, *client.Line) {
+			select {
+			case disc <- struct{}{}:
+			default:
+			}
+		})
 		if conn.Connect() == nil {
 			sc := <-conns
 			select {
